@@ -458,7 +458,7 @@ def run(ctx):
         else:
             for k, ir in enumerate(corpus_programs()):
                 reqs.append(mkreq("corpus%d" % k, ir, ctx.rng.randint(1, 1 << 30)))
-            count = ctx.n(10, 60)
+            count = ctx.n(10, 180)
             for k in range(count):
                 # small programs for small queues so that part of the runs lies within capacity
                 size = 1 if (q <= 3 and k % 2 == 0) else ctx.rng.choice([2, 3, 4])
